@@ -152,7 +152,7 @@ def consumers(rng, read_error=None):
     cs = [r, {'id': 'D1', 'kind': 'dom_load', 'file': 'f1',
               'via': 'from_bytes'},
           {'id': 'D2', 'kind': 'dom_load', 'file': 'f1',
-           'via': 'from_stream'}]
+           'via': 'hook' if rng.chance(0.12) else 'from_stream'}]
     return cs
 
 
@@ -312,12 +312,14 @@ def execute(scn, L):
                 else:
                     d_state = 'err'
 
-                    if ei['parse_error']:
+                    if ei['parse_error'] and not (
+                            via == 'hook' and ei['msg'].endswith(
+                                'not a DiffX file')):
                         check_parse_error(out, 'dom', ei, a.data)
             else:
                 d_state = 'ok'
 
-            if via == 'from_stream' and a.handle is not None:
+            if via in ('from_stream', 'hook') and a.handle is not None:
                 if not a.handle.closed:
                     out.violate('C08.stream-not-closed', '%s:%s' % (
                         a.end, (a.exc_info or {}).get('type')),
